@@ -12,7 +12,7 @@ from .c01 import build_synced_array
 RULE = ("histories of syncs (complete; -S/-B partial; killed after the parity update; with stripes skipped because a --test-run "
         "command rewrites, removes or makes unreadable a file of the stripe between scan and sync; with copy-detected files) followed "
         "by detectable damage only (missing or short files, flips in blocks that have a recorded hash with size and stamp kept, lost or "
-        "stale parity) on 0..nd+np devices, then fix with no filter and with -f/-d/-m/-e combinations. Oracle (version store = every "
+        "stale parity) on 0..nd+np devices, then fix with no filter and with -f/-d/-m/-e combinations; plus silent damage + scrub (stripes marked bad) + user changes (append, rewrite, shrink, touch) of stripe mates and of the damaged files, then fix -e / -b: files changed after the sync and files without a bad block keep bytes, size and time-stamp. Oracle (version store = every "
         "version the harness ever wrote, keyed by disk/path/size/mtime; content decoded before fix): afterwards every recorded file "
         "either holds exactly the bytes of the recorded version or is reported unrecoverable (status:unrecoverable + .unrecoverable "
         "rename + failing exit status); no file is tagged status:recovered with other bytes; files outside the selection or unknown to "
@@ -88,8 +88,146 @@ def diagnose(a, fs, c, f, got, want, inputs_damaged):
     return "+".join(sorted(reasons)) or "no-block-differs(size?)"
 
 
+def run_case_e(case):
+    """fix -e / -b on an array with stripes marked bad by scrub, where files sharing those stripes (and sometimes the damaged
+    file itself) were changed by the user after the last sync: -e/-b select only the files with a bad block AND "apply the
+    fixes only to files that are not modified from the latest sync" - everything else must keep exactly the bytes, size and
+    time-stamp it had before the fix; the selected, still synced files get the recorded bytes back or are reported."""
+    seed, idx, tier = case
+    rng = random.Random("c05e-%d-%d" % (seed, idx))
+    variant = "asan" if idx % 4 == 3 else "plain"
+    res = dict(key=None, violations=[], counters={}, nontrivial=False)
+    V = res["violations"]
+    cfg = scen.gen_config(rng, max_nd=4, max_lev=2, force=dict(hashsize=16))
+    a, fs, state0, hist, cfg = build_synced_array(rng, "c05e", cfg, variant, rounds=rng.randint(0, 1), want_migration=False)
+    try:
+        c = a.load_content()
+        name2idx = {n.encode(): i for i, n in enumerate(a.disk_names)}
+        sm = c.stripe_map()
+        tg = [(f, bi) for f in c.files for bi, b in enumerate(f.blocks) if b[1] == BLK and not fs.links_of(name2idx[c.disk_name(f.disk)], f.sub)]
+        if not tg:
+            raise scen.CaseError("no synced block")
+        hit = rng.sample(tg, min(len(tg), rng.randint(1, 3)))
+        for (f, bi) in hit:
+            dmg.damage_file_block(a, c, f, bi, rng, rng.choice(["bit", "block", "byte"]))
+        rs = a.cmd("scrub", "-p", "full", variant=variant)
+        hist.append(("scrub-full", rs.rc))
+        c = a.load_content()
+        bad = {pos for pos, v in enumerate(c.info) if v is not None and v[1]}
+        if not bad:
+            raise scen.CaseError("scrub marked nothing")
+        # files with a block in a bad stripe
+        inbad = {}
+        for pos in bad:
+            for e in sm.get(pos, []):
+                if e[1] == "file":
+                    inbad[(name2idx[c.disk_name(e[0])], e[2].sub)] = e[2]
+        damaged = {(name2idx[c.disk_name(f.disk)], f.sub) for (f, _bi) in hit}
+        # ---- the user goes on working: stripe mates (mostly) and files elsewhere are changed after the sync
+        mates = [k for k in inbad if k not in damaged]
+        pool_ = [k for k in mates for _ in range(3)] + [k for k in damaged] + \
+                [(name2idx[c.disk_name(f.disk)], f.sub) for f in c.files if f.size > 0]
+        pool_ = [k for k in pool_ if not fs.links_of(*k)]
+        user = {}
+        for k in rng.sample(pool_, min(len(pool_), rng.randint(1, 4))):
+            if k in user:
+                continue
+            pth = fs.path(*k)
+            try:
+                st = os.lstat(pth)
+            except OSError:
+                continue
+            how = rng.choice(["append", "append", "rewrite+append", "rewrite", "shrink", "touch"])
+            mt = fs.clock.next()
+            with open(pth, "r+b") as fh:
+                if how in ("rewrite", "rewrite+append") and st.st_size:
+                    fh.seek(rng.randrange(st.st_size))
+                    fh.write(A.gen_bytes(rng, rng.randint(1, max(1, st.st_size // 2)), "rand"))
+                if how in ("append", "rewrite+append"):
+                    fh.seek(0, 2)
+                    fh.write(A.gen_bytes(rng, rng.randint(1, 3 * a.bs), "rand"))
+                if how == "shrink" and st.st_size:
+                    fh.truncate(rng.randint(0, st.st_size - 1))
+            os.utime(pth, ns=(mt, mt))
+            user[k] = how
+        if not user:
+            raise scen.CaseError("nothing modified")
+        fargs = [rng.choice(["-e", "-e", "-b"])]
+        before = {d: A.snapshot(a.ddir(d)) for d in a.disks}
+        rf = a.cmd("fix", *fargs, variant=variant)
+        for s_ in rf.san:
+            V.append(("sanitizer:" + A.san_key(s_), s_[:2000], {"case": list(case)}))
+        if rf.timeout:
+            res["inconclusive"] = "fix timeout"
+            return res
+        after = {d: A.snapshot(a.ddir(d)) for d in a.disks}
+        rep = {"case": list(case), "cfg": cfg, "history": hist, "damaged": sorted((a.disk_names[d], s.decode("latin-1")) for d, s in damaged),
+               "modified_after_sync": sorted((a.disk_names[d], s.decode("latin-1"), h) for (d, s), h in user.items()), "fix_args": fargs}
+        label = "silent damage in %d blocks, scrub, user changes %s, fix %s rc=%s" % (len(hit), sorted(user.values()), fargs, rf.rc)
+        res["counters"]["fix_e_runs"] = 1
+        res["counters"]["fix_e_files_modified_after_sync"] = len(user)
+        res["counters"]["fix_e_modified_files_in_bad_stripes"] = len([k for k in user if k in inbad])
+        unrec = {(t[2], t[3]) for t in rf.tag("status") if len(t) >= 4 and t[1] == b"unrecoverable"}
+        own = scen.content_copy_subs(a)
+        nj = 0
+        # other names (hard links) of the selected files change with them
+        sel_ino = {(d_, before[d_][s_][3]) for (d_, s_) in inbad if s_ in before[d_] and before[d_][s_][0] == "file" and (d_, s_) not in user}
+        for d in a.disks:
+            for (pth, what, x, y) in A.snap_diff(before[d], after[d]):
+                if pth in own[d]:
+                    continue
+                if (d, pth) not in user and any(z is not None and z[0] == "file" and (d, z[3]) in sel_ino for z in (x, y)):
+                    continue
+                if x is not None and y is not None and x[0] == "dir" and y[0] == "dir":
+                    continue
+                base = pth[:-len(b".unrecoverable")] if pth.endswith(b".unrecoverable") else pth
+                if (d, base) in user:
+                    V.append(("fix-%s-writes-file-modified-after-sync/%s" % (fargs[0], user[(d, base)]),
+                              "%s: %s %r on %s (%s -> %s)" % (label, what, pth, a.disk_names[d], x[:3] if x else None, y[:3] if y else None), rep))
+                elif (d, base) not in inbad:
+                    V.append(("fix-%s-writes-file-without-bad-block" % fargs[0], "%s: %s %r on %s" % (label, what, pth, a.disk_names[d]), rep))
+        # selected and still synced: recorded bytes or reported
+        for k in damaged:
+            if k in user:
+                continue
+            nj += 1
+            d, sub = k
+            f = inbad.get(k)
+            if f is None:
+                continue
+            want = fs.lookup(d, sub, f.size, f.mtime_sec, f.mtime_nsec if f.mtime_nsec >= 0 else 0)
+            if want is None:
+                continue
+            try:
+                with open(fs.path(d, sub), "rb") as fh:
+                    got = fh.read()
+            except OSError:
+                got = None
+            if got is not None and got != want:
+                if (a.disk_names[d].encode(), sub) in unrec and rf.rc != 0:
+                    V.append(("unrecoverable-file-left-under-its-name", "%s: %r" % (label, sub), rep))
+                elif before[d].get(sub) != after[d].get(sub) or (a.disk_names[d].encode(), sub) not in unrec:
+                    # left damaged without any report, or rewritten wrongly
+                    mates_changed = any(k2 in user for k2 in inbad if k2 != k)
+                    if rf.rc == 0 or before[d].get(sub) != after[d].get(sub):
+                        V.append(("fix-%s-leaves-selected-file-wrong%s" % (fargs[0], "/stripe-mate-modified" if mates_changed else ""),
+                                  "%s: %s:%r still differs from the recorded version, rc=%s, not reported unrecoverable" %
+                                  (label, a.disk_names[d], sub, rf.rc), rep))
+        if unrec and rf.rc == 0:
+            V.append(("unrecoverable-reported-but-exit-ok", label, rep))
+        res["counters"]["files_judged"] = nj + len(user)
+        res["nontrivial"] = True
+        res["key"] = "e|%s|%s|%s|%s" % (sorted((k, str(v)) for k, v in cfg.items()), len(hit), sorted(user.values()), fargs)
+        res["sample"] = {"cfg": cfg, "scenario": "fix -e/-b after user changes", "user": sorted(user.values()), "fix": fargs}
+        return res
+    finally:
+        a.cleanup()
+
+
 def run_case(case):
     seed, idx, tier = case
+    if idx >= 100000:
+        return run_case_e(case)
     rng = random.Random("c05-%d-%d" % (seed, idx))
     variant = "asan" if idx % 4 == 3 else "plain"
     res = dict(key=None, violations=[], counters={}, nontrivial=False)
@@ -425,6 +563,8 @@ def main(tier, seed, replay, jobs, scale):
     else:
         n = int((400 if tier == "quick" else 4000) * scale)
         cases = [(seed, i, tier) for i in range(n)]
+        # fix -e / -b on bad-marked stripes whose files the user went on changing after the sync
+        cases += [(seed, 100000 + i, tier) for i in range(max(4, n // 8))]
     par.absorb(run, par.run_cases(run_case, cases, jobs))
     run.assumptions += ["only detectable damage is injected; hash size 16",
                         "a file fix did not touch is not 'produced' by fix (it may be outside the selection)",
